@@ -236,7 +236,9 @@ class Folder:
         if isinstance(node, ast.Constant) and isinstance(node.value, int):
             return node.value
         if isinstance(node, ast.Name):
-            # local FLAGS = re.I | re.U  -- handled by callers through env
+            # local FLAGS = re.I | re.U is handled by callers through env; a module-level constant is folded here
+            if node.id in mod.assigns:
+                return self._flags(mod.assigns[node.id], mod)
             raise NotConst('flags name')
         raise NotConst('flags')
 
